@@ -332,6 +332,18 @@ var c18Reserved = []string{"jobconfig.", "job.", "task.", "option."}
 
 func hasSpecial(s string) bool { return strings.ContainsAny(s, "${}") }
 
+func podTemplateStrings(j *execution.Job) []string {
+	var out []string
+	if j.Spec.Template == nil || j.Spec.Template.TaskTemplate.Pod == nil {
+		return out
+	}
+	for _, c := range j.Spec.Template.TaskTemplate.Pod.Spec.Containers {
+		out = append(out, c.Image)
+		out = append(out, c.Args...)
+	}
+	return out
+}
+
 func c18Run(env *core.Env, res *core.Result) {
 	silenceLogs()
 	for i := env.From; i < env.To; i++ {
@@ -535,10 +547,24 @@ func c18One(env *core.Env, res *core.Result, caseIdx int) {
 	retry := int64(r.Intn(3))
 	idx := parallel.GetDefaultIndex()
 	tpl := &corev1.PodTemplateSpec{Spec: job.Spec.Template.TaskTemplate.Pod.Spec}
+	jobBefore := job.DeepCopy()
 	pod, err := podtaskexecutor.NewPod(job, tpl, tasks.TaskIndex{Retry: retry, Parallel: idx})
 	if err != nil {
 		viol("newpod-error", "NewPod: %v", err)
 		return
+	}
+	// the Job handed to the executor is the informer-cache object: building a task must leave it untouched,
+	// otherwise the next task (another index, a retry) is built from already substituted text
+	if !reflect.DeepEqual(jobBefore, job) {
+		viol("newpod-mutates-job", "NewPod changed the Job it was given: template containers before %q, after %q", podTemplateStrings(jobBefore), podTemplateStrings(job))
+		return
+	}
+	if other, err := podtaskexecutor.NewPod(job, tpl, tasks.TaskIndex{Retry: retry + 1, Parallel: idx}); err == nil {
+		fresh, _ := podtaskexecutor.NewPod(jobBefore.DeepCopy(), &corev1.PodTemplateSpec{Spec: jobBefore.Spec.Template.TaskTemplate.Pod.Spec}, tasks.TaskIndex{Retry: retry + 1, Parallel: idx})
+		if fresh != nil && !reflect.DeepEqual(other.Spec, fresh.Spec) {
+			viol("task-depends-on-earlier-task", "the Pod for retry %d built after the Pod for retry %d differs from the one built from a fresh copy of the same Job: %q vs %q", retry+1, retry, podStrings(other), podStrings(fresh))
+			return
+		}
 	}
 	gotStrs := []string{pod.Spec.Containers[0].Image}
 	gotStrs = append(gotStrs, pod.Spec.Containers[0].Args...)
